@@ -670,3 +670,243 @@ Proof.
   - exact HN1.
   - intros i u n Hu Hon. rewrite lookup_delete_Some in Hu. apply Hnkeep. exact (rp_nodes_ex c R i u n (proj2 Hu) Hon).
 Qed.
+
+(* ---------- pod handlers ---------- *)
+
+(* the rules of the API server the pod handlers rely on *)
+Definition pod_ok (p : pod) : Prop :=
+  p_job p <> Some no_job /\ scm (p_req p) <> ∅ /\ (p_phase p = PRunning -> p_node p <> None).
+(* spec.nodeName is immutable once set *)
+Definition upd_ok (old new : pod) : Prop := p_node old <> None -> p_node new = p_node old.
+
+Lemma rep_frame c c' :
+  c_heap c' = c_heap c -> c_jobs c' = c_jobs c -> c_nodes c' = c_nodes c -> Rep c -> Rep c'.
+Proof. intros H1 H2 H3 [A B C D E F]. split; rewrite ?H1, ?H2, ?H3; assumption. Qed.
+
+Section Pods.
+Variable eps : Z.
+
+(* the tasks the cache holds are exactly the tasks of the last delivered pod versions *)
+Definition Synced (c : cache) : Prop := c_heap c = task_of_pod eps <$> c_store c.
+Definition store_ok (c : cache) : Prop := forall i p, c_store c !! i = Some p -> p_id p = i /\ pod_ok p.
+
+Lemma pod_status_not_binding p : pod_status p <> Binding.
+Proof. unfold pod_status. destruct (p_phase p), (p_deleting p), (p_node p); discriminate. Qed.
+
+Lemma job_arg_pod p : pod_ok p -> job_arg (p_job p) (task_of_pod eps p).
+Proof.
+  intros (Hj & _). unfold job_arg, task_of_pod. destruct (p_job p) as [j|]; simpl; [|reflexivity].
+  split; [reflexivity|congruence].
+Qed.
+
+Lemma stored_default c p t :
+  c_heap c !! p_id p = Some t -> default t (stored_task c (p_job p) (p_id p)) = t.
+Proof.
+  intros H. unfold stored_task. destruct (p_job p); [|reflexivity].
+  destruct (c_jobs c !! p0); [|reflexivity]. case_bool_decide; [rewrite H|]; reflexivity.
+Qed.
+
+Lemma delete_pod_rep c old :
+  Rep c -> pod_ok old -> c_heap c !! p_id old = Some (task_of_pod eps old) ->
+  let c' := delete_pod eps c old in
+  Rep c' /\ c_heap c' = delete (p_id old) (c_heap c) /\ c_store c' = c_store c /\
+  jobs_ext (c_jobs c) (c_jobs c') /\ nodes_ext (c_nodes c) (c_nodes c').
+Proof.
+  intros R Hok Hs. unfold delete_pod.
+  set (t := task_of_pod eps old).
+  replace (default t (stored_task c (p_job old) (p_id old))) with t by (symmetry; apply stored_default; exact Hs).
+  destruct (delete_task_rep c (p_job old) t R Hs (job_arg_pod old Hok)) as (R1 & Hh & Hje & Hne & Hc).
+  set (c1 := delete_task c (p_job old) t) in *.
+  assert (Hst : c_store c1 = c_store c) by (rewrite Hc; reflexivity).
+  assert (G : forall c2, c_heap c2 = c_heap c1 -> c_jobs c2 = c_jobs c1 -> c_nodes c2 = c_nodes c1 -> c_store c2 = c_store c1 ->
+              Rep c2 /\ c_heap c2 = delete (p_id old) (c_heap c) /\ c_store c2 = c_store c /\
+              jobs_ext (c_jobs c) (c_jobs c2) /\ nodes_ext (c_nodes c) (c_nodes c2)).
+  { intros c2 E1 E2 E3 E4. split; [apply (rep_frame c1); auto|]. rewrite E1, E2, E3, E4. auto. }
+  destruct (p_job old) as [j|]; [|apply G; reflexivity].
+  destruct (c_jobs c1 !! j) as [cj|]; [|apply G; reflexivity].
+  destruct (job_terminated cj); apply G; reflexivity.
+Qed.
+
+Lemma add_pod_rep c p :
+  Rep c -> pod_ok p -> c_heap c !! p_id p = None ->
+  let c' := add_pod eps c p in
+  Rep c' /\ c_heap c' = <[p_id p := task_of_pod eps p]> (c_heap c) /\ c_store c' = c_store c /\
+  jobs_ext (c_jobs c) (c_jobs c') /\ nodes_ext (c_nodes c) (c_nodes c').
+Proof.
+  intros R Hok Hn. unfold add_pod.
+  destruct (add_task_rep eps c (p_job p) (task_of_pod eps p) R Hn) as (R1 & _ & Hh & Hje & Hne & Hc).
+  - destruct Hok as (_ & Hw & _). exact Hw.
+  - apply pod_status_not_binding.
+  - apply job_arg_pod. exact Hok.
+  - split; [exact R1|]. split; [exact Hh|]. split; [rewrite Hc; reflexivity|auto].
+Qed.
+
+Lemma allocated_needs_node p : pod_ok p -> allocated_status (pod_status p) = true -> p_node p <> None.
+Proof.
+  intros (_ & _ & Hr). unfold pod_status.
+  destruct (p_phase p) eqn:Hp, (p_deleting p), (p_node p); simpl; try discriminate; try congruence.
+  intros _. apply Hr. reflexivity.
+Qed.
+
+Lemma update_guard c old new :
+  pod_ok old -> upd_ok old new -> p_id old = p_id new ->
+  c_heap c !! p_id new = Some (task_of_pod eps old) ->
+  allocated_in_cache c new && bool_decide (p_node new = None) = false.
+Proof.
+  intros Hok Hu Hid Hs. destruct (bool_decide (p_node new = None)) eqn:Hb; [|apply andb_false_r].
+  rewrite bool_decide_eq_true in Hb. rewrite andb_true_r.
+  unfold allocated_in_cache, stored_task. destruct (p_job new); [|reflexivity].
+  destruct (c_jobs c !! p); [|reflexivity]. case_bool_decide; [|reflexivity].
+  rewrite Hs. simpl. destruct (allocated_status (pod_status old)) eqn:Ha; [|reflexivity].
+  exfalso. pose proof (allocated_needs_node old Hok Ha) as Hn. rewrite (Hu Hn) in Hb. contradiction.
+Qed.
+
+(* Theorem (pod notifications): AddPod / UpdatePod keep the invariant and leave
+   the cache holding exactly the task of the delivered version *)
+Theorem handle_pod_inv c p :
+  Rep c -> Synced c -> store_ok c -> pod_ok p ->
+  (forall old, c_store c !! p_id p = Some old -> upd_ok old p) ->
+  let c' := handle eps c (EPod p) in
+  Rep c' /\ Synced c' /\ store_ok c' /\ c_store c' = <[p_id p := p]> (c_store c) /\
+  jobs_ext (c_jobs c) (c_jobs c') /\ nodes_ext (c_nodes c) (c_nodes c').
+Proof.
+  intros R S So Hok Hu. unfold handle, handle_with.
+  assert (Fin : forall c1, Rep c1 -> c_heap c1 = <[p_id p := task_of_pod eps p]> (c_heap c) -> c_store c1 = c_store c ->
+     jobs_ext (c_jobs c) (c_jobs c1) -> nodes_ext (c_nodes c) (c_nodes c1) ->
+     let c' := with_store c1 (<[p_id p := p]> (c_store c1)) in
+     Rep c' /\ Synced c' /\ store_ok c' /\ c_store c' = <[p_id p := p]> (c_store c) /\
+     jobs_ext (c_jobs c) (c_jobs c') /\ nodes_ext (c_nodes c) (c_nodes c')).
+  { intros c1 R1 Hh Hst Hje Hne. simpl. split; [apply (rep_frame c1); auto|]. split; [|split; [|split; [|auto]]].
+    - unfold Synced. simpl. rewrite Hh, Hst, fmap_insert, S. reflexivity.
+    - intros i q. simpl. rewrite Hst. destruct (decide (i = p_id p)) as [->|Hne2].
+      + rewrite lookup_insert. intros [= <-]. auto.
+      + rewrite lookup_insert_ne by congruence. apply So.
+    - simpl. rewrite Hst. reflexivity. }
+  destruct (c_store c !! p_id p) as [old|] eqn:Hold.
+  - destruct (So _ _ Hold) as [Hid Hokold].
+    assert (Hs : c_heap c !! p_id p = Some (task_of_pod eps old)) by (rewrite S, lookup_fmap, Hold; reflexivity).
+    unfold update_pod. rewrite (update_guard c old p Hokold (Hu old eq_refl) Hid Hs).
+    rewrite <- Hid in Hs.
+    destruct (delete_pod_rep c old R Hokold Hs) as (R1 & Hh1 & Hst1 & Hje1 & Hne1).
+    set (c1 := delete_pod eps c old) in *.
+    destruct (add_pod_rep c1 p R1 Hok) as (R2 & Hh2 & Hst2 & Hje2 & Hne2).
+    { rewrite Hh1, <- Hid. apply lookup_delete. }
+    apply Fin; auto.
+    + rewrite Hh2, Hh1, <- Hid. apply insert_delete_insert.
+    + congruence.
+    + eapply jobs_ext_trans; eauto.
+    + eapply nodes_ext_trans; eauto.
+  - assert (Hs : c_heap c !! p_id p = None) by (rewrite S, lookup_fmap, Hold; reflexivity).
+    destruct (add_pod_rep c p R Hok Hs) as (R2 & Hh2 & Hst2 & Hje2 & Hne2).
+    apply Fin; auto.
+Qed.
+
+(* Theorem (DeletePod) *)
+Theorem handle_pod_del_inv c i :
+  Rep c -> Synced c -> store_ok c ->
+  let c' := handle eps c (EPodDel i) in
+  Rep c' /\ Synced c' /\ store_ok c' /\ c_store c' = delete i (c_store c) /\
+  jobs_ext (c_jobs c) (c_jobs c') /\ nodes_ext (c_nodes c) (c_nodes c').
+Proof.
+  intros R S So. unfold handle, handle_with.
+  destruct (c_store c !! i) as [old|] eqn:Hold.
+  - destruct (So _ _ Hold) as [Hid Hokold].
+    assert (Hs : c_heap c !! p_id old = Some (task_of_pod eps old)) by (rewrite S, lookup_fmap, Hid, Hold; reflexivity).
+    destruct (delete_pod_rep c old R Hokold Hs) as (R1 & Hh1 & Hst1 & Hje1 & Hne1).
+    set (c1 := delete_pod eps c old) in *. simpl.
+    split; [apply (rep_frame c1); auto|]. split; [|split; [|split; [|auto]]].
+    + unfold Synced. simpl. rewrite Hh1, Hst1, fmap_delete, S, Hid. reflexivity.
+    + intros k q. simpl. rewrite Hst1, lookup_delete_Some. intros [_ H]. exact (So k q H).
+    + simpl. rewrite Hst1. reflexivity.
+  - simpl. split; [exact R|]. split; [exact S|]. split; [exact So|].
+    split; [symmetry; apply delete_notin; exact Hold|]. split; [apply jobs_ext_refl|apply nodes_ext_refl].
+Qed.
+
+End Pods.
+
+(* ---------- nodes: RemoveNode ---------- *)
+
+(* Theorem (RemoveNode, after fix e29cb66): the invariant is kept -- in particular
+   every task that sits on the removed node still has an entry (the placeholder) *)
+Theorem remove_node_inv c nid : Rep c -> Rep (remove_node c nid).
+Proof.
+  intros R. unfold remove_node. destruct (c_nodes c !! nid) as [ni|] eqn:Hni.
+  - pose proof (rp_nodes c R nid ni Hni) as HR. case_bool_decide as He.
+    + destruct R as [A B C D E F]. split; simpl; auto.
+      * intros n N HN. rewrite lookup_delete_Some in HN. apply E. tauto.
+      * intros i t n Ht Hon. destruct (decide (n = nid)) as [->|Hne].
+        -- exfalso. assert (n_tasks ni !! i = Some t) as Hc.
+           { rewrite (nr_tasks _ _ _ HR). apply map_filter_lookup_Some. auto. }
+           rewrite He, lookup_empty in Hc. discriminate.
+        -- rewrite lookup_delete_ne by congruence. exact (F i t n Ht Hon).
+    + destruct R as [A B C D E F]. split; simpl; auto.
+      * intros n N HN. destruct (decide (n = nid)) as [->|Hne].
+        -- rewrite lookup_insert in HN. injection HN as <-. split; simpl.
+           ++ exact (nr_id _ _ _ HR).
+           ++ exact (nr_tasks _ _ _ HR).
+           ++ discriminate.
+        -- rewrite lookup_insert_ne in HN by congruence. exact (E n N HN).
+      * intros i t n Ht Hon. destruct (decide (n = nid)) as [->|Hne]; [rewrite lookup_insert; eauto|].
+        rewrite lookup_insert_ne by congruence. exact (F i t n Ht Hon).
+  - apply (rep_frame c); auto.
+Qed.
+
+(* the placeholder holds exactly the tasks the NodeInfo held *)
+Lemma remove_node_keeps_tasks c nid ni :
+  c_nodes c !! nid = Some ni -> n_tasks ni <> ∅ ->
+  exists ph, c_nodes (remove_node c nid) !! nid = Some ph /\ n_tasks ph = n_tasks ni /\ n_has_node ph = false.
+Proof.
+  intros H Hne. unfold remove_node. rewrite H. rewrite bool_decide_eq_false_2 by exact Hne.
+  simpl. rewrite lookup_insert. eexists. split; [reflexivity|]. split; reflexivity.
+Qed.
+
+(* ---------- the view is determined by the tasks and the node / PodGroup objects ---------- *)
+
+Definition job_equiv (a b : cjob) : Prop :=
+  j_tasks (cj_job a) = j_tasks (cj_job b) /\
+  res_eqv (j_total (cj_job a)) (j_total (cj_job b)) /\ res_eqv (j_alloc (cj_job a)) (j_alloc (cj_job b)).
+
+Definition node_equiv (a b : node) : Prop :=
+  n_tasks a = n_tasks b /\
+  (n_has_node a = true -> n_has_node b = true -> res_eqv (n_alloc a) (n_alloc b) ->
+   res_eqv (n_idle a) (n_idle b) /\ res_eqv (n_used a) (n_used b) /\
+   res_eqv (n_releasing a) (n_releasing b) /\ res_eqv (n_pipelined a) (n_pipelined b)).
+
+(* Theorem (determinacy): two caches that satisfy the invariant and hold the same
+   tasks agree on every job (membership, total and allocated request) and on
+   every node (held tasks and, given the same allocatable, the whole ledger);
+   a job or node entry that holds a task in one of them exists in the other *)
+Theorem view_determined c c' :
+  Rep c -> Rep c' -> c_heap c = c_heap c' ->
+  (forall j cj, c_jobs c !! j = Some cj ->
+     (j_tasks (cj_job cj) <> ∅ -> is_Some (c_jobs c' !! j)) /\
+     (forall cj', c_jobs c' !! j = Some cj' -> job_equiv cj cj')) /\
+  (forall n N, c_nodes c !! n = Some N ->
+     (n_tasks N <> ∅ -> is_Some (c_nodes c' !! n)) /\
+     (forall N', c_nodes c' !! n = Some N' -> node_equiv N N')).
+Proof.
+  intros R R' Hh. split.
+  - intros j cj Hcj. pose proof (rp_jobs c R j cj Hcj) as HJ. split.
+    + intros Hne. apply set_choose_L in Hne. destruct Hne as [i Hi].
+      apply (jr_tasks _ _ _ HJ) in Hi. destruct Hi as (t & Ht & Htj).
+      rewrite Hh in Ht. rewrite <- Htj. apply (rp_jobs_ex c' R' i t Ht).
+      rewrite Htj. intros ->. rewrite (rp_nojob c R) in Hcj. discriminate.
+    + intros cj' Hcj'. pose proof (rp_jobs c' R' j cj' Hcj') as HJ'. rewrite <- Hh in HJ'.
+      split; [|split].
+      * apply set_eq. intros i. rewrite (jr_tasks _ _ _ HJ), (jr_tasks _ _ _ HJ'). reflexivity.
+      * apply res_eqv_amt. intros d. rewrite (proj1 (jr_total _ _ _ HJ) d), (proj1 (jr_total _ _ _ HJ') d). reflexivity.
+      * apply res_eqv_amt. intros d. rewrite (proj1 (jr_alloc _ _ _ HJ) d), (proj1 (jr_alloc _ _ _ HJ') d). reflexivity.
+  - intros n N HN. pose proof (rp_nodes c R n N HN) as HR. split.
+    + intros Hne. apply map_choose in Hne. destruct Hne as (i & t & Hi).
+      rewrite (nr_tasks _ _ _ HR) in Hi. apply map_filter_lookup_Some in Hi. destruct Hi as [Ht Hon].
+      rewrite Hh in Ht. exact (rp_nodes_ex c' R' i t n Ht Hon).
+    + intros N' HN'. pose proof (rp_nodes c' R' n N' HN') as HR'. rewrite <- Hh in HR'. split.
+      * rewrite (nr_tasks _ _ _ HR), (nr_tasks _ _ _ HR'). reflexivity.
+      * intros Ha Hb Hal. pose proof (nr_ledger _ _ _ HR Ha) as L. pose proof (nr_ledger _ _ _ HR' Hb) as L'.
+        rewrite res_eqv_amt in Hal.
+        split; [|split; [|split]]; apply res_eqv_amt; intros d.
+        -- rewrite (lg_idle _ _ _ L d), (lg_idle _ _ _ L' d), (Hal d). reflexivity.
+        -- rewrite (proj1 (lg_used _ _ _ L) d), (proj1 (lg_used _ _ _ L') d). reflexivity.
+        -- rewrite (proj1 (lg_rel _ _ _ L) d), (proj1 (lg_rel _ _ _ L') d). reflexivity.
+        -- rewrite (proj1 (lg_pip _ _ _ L) d), (proj1 (lg_pip _ _ _ L') d). reflexivity.
+Qed.
